@@ -528,11 +528,21 @@ class Acc(Stream):
         return ACC_KEY if st.hex() == o["after"] else None
 
 
+from . import C12 as _C12
+
+
+class AcceptExtract(_C12.NasWell):
+    """PDU SESSION ESTABLISHMENT ACCEPT messages (inside protected DL NAS TRANSPORT) built by the independent encoder of the
+    C12 check — any 5GSM cause, optional IEs of every format before and after the PDU address — read by the emulator's own
+    parser of that message (stgutg.DecodePDUSessionNASPDU): the address it finds is the one encoded"""
+    name = "accept-extract"
+
+
 class C09(Check):
     pid = "C09"
     prop_files = ["Properties/C09.v"]
-    extra_targets = ["Model/NasCorr.vo", "Model/NasLayout.vo", "Model/NasRefCorr.vo", "Model/NasAccCheck.vo"]
-    streams = [Ctor(), Ctor(dev=True), RefEnc(), RefEnc(dev=True), Acc()]
+    extra_targets = ["Model/NasCorr.vo", "Model/NasLayout.vo", "Model/NasRefCorr.vo", "Model/NasAccCheck.vo", "Model/Extract.vo", "Spec/SessionMsgs.vo"]
+    streams = [Ctor(), Ctor(dev=True), RefEnc(), RefEnc(dev=True), Acc(), AcceptExtract()]
     trusted = ["Coq 8.16.1 kernel incl. vm_compute (no native_compute)", "no axioms (Print Assumptions: closed under the global context)",
                "Spec/TS24501Tables.v: TS 24.501 Rel-15 tables 8.2.x/8.3.x transcribed from memory (rows marked uncertain are not compared)",
                "translator harness/gen_nas.go and the interpreter semantics of Model/NasCodec.v (tied by C08's streams)",
